@@ -2,7 +2,7 @@
    specification of Layout/LineBreakSpec.v for all inputs, and is the only division
    that does. *)
 From Verif Require Import Layout.LineBreak Layout.LineBreakSpec.
-From Coq Require Import List ZArith QArith Qminmax Bool Lia Lqa.
+From Coq Require Import List ZArith QArith Qminmax Qabs Bool Lia Lqa.
 Import ListNotations.
 Open Scope Z_scope.
 
@@ -1159,3 +1159,39 @@ Qed.
 Theorem stack_phantom : forall c first y l r, phantom l = true ->
   stack c first y (l :: r) = stack c first y r.
 Proof. intros c first y l r H. cbn [stack]. now rewrite H. Qed.
+
+(* ---------------------------------------------------------------- inline box extents *)
+
+Lemma near_spec : forall a b : Q, near a b = true <-> (Qabs (a - b) <= 1 # 64)%Q.
+Proof.
+  intros a b. unfold near. rewrite andb_true_iff, !Qle_bool_iff. split.
+  - intros [H1 H2]. apply Qabs_case; intros _; [exact H1|].
+    setoid_replace (- (a - b))%Q with (b - a)%Q by ring. exact H2.
+  - intros H. split.
+    + eapply Qle_trans; [apply Qle_Qabs|exact H].
+    + setoid_replace (b - a)%Q with (- (a - b))%Q by ring.
+      eapply Qle_trans; [apply Qle_Qabs|]. rewrite Qabs_opp. exact H.
+Qed.
+
+Lemma ibox_ok_spec : forall b : iboxo, ibox_ok b = true <-> ibox_spans b.
+Proof.
+  intros b. unfold ibox_ok, ibox_spans. rewrite andb_true_iff, !near_spec. tauto.
+Qed.
+
+(* ---------------------------------------------------------------- line boxes and vertical-align *)
+
+Lemma vline_tall_b_spec : forall l : vline, vline_tall_b l = true <-> vline_tall l.
+Proof.
+  intros l. unfold vline_tall_b, vline_tall. rewrite forallb_forall. split.
+  - intros H r Hr. apply Qle_bool_iff. apply H. exact Hr.
+  - intros H r Hr. apply Qle_bool_iff. apply H. exact Hr.
+Qed.
+
+Lemma vstacked_b_spec : forall ls : list vline, vstacked_b ls = true <-> vstacked ls.
+Proof.
+  induction ls as [|a r IH]; [simpl; tauto|].
+  destruct r as [|b r']; [simpl; tauto|].
+  change (vstacked_b (a :: b :: r')) with (Qeq_bool (vl_y b) (vl_y a + vl_h a)%Q && vstacked_b (b :: r')).
+  change (vstacked (a :: b :: r')) with ((vl_y b == vl_y a + vl_h a)%Q /\ vstacked (b :: r')).
+  rewrite andb_true_iff, Qeq_bool_iff, IH. tauto.
+Qed.
